@@ -62,8 +62,51 @@ def parity_from_dm(rho, k):
     return tot
 
 
+def check_backend_state_subsets(cut):
+    """state construction from simulator data: eng.run(prog, modes=subset in any order) returns a state whose index i is
+    the i-th REQUESTED mode, consistent with the full state, on every backend (pure and mixed simulation)"""
+    for backend in ("gaussian", "bosonic", "fock"):
+        kw = {"cutoff_dim": min(cut, 9)} if backend == "fock" else {}
+        for pure in (True, False):
+            full = state(backend, 3, pure, **kw)
+            for modes in ([0], [2], [0, 2], [2, 0], [1, 2], [2, 1, 0], [1, 0, 2]):
+                EVAL[0] += 1
+                prog = sf.Program(3)
+                with prog.context as q:
+                    for k in range(3):
+                        ops.Sgate(0.25 + 0.05 * k, 0.5 * k) | q[k]
+                        ops.Dgate(0.15 * (k + 1), 0.4 * k) | q[k]
+                    for k in range(2):
+                        ops.BSgate(0.5, 0.3 + 0.2 * k) | (q[k], q[k + 1])
+                    if not pure:
+                        ops.LossChannel(0.8) | q[0]
+                        ops.LossChannel(0.7) | q[2]
+                label = f"{backend} pure={pure}: run(prog, modes={modes}).state"
+                try:
+                    st = sf.Engine(backend, backend_options=kw).run(prog, modes=modes).state
+                    if st.num_modes != len(modes):
+                        bad(f"{label} has {st.num_modes} modes")
+                        continue
+                    a = np.array([st.quad_expectation(i, ph) for i in range(len(modes)) for ph in (0.0, 0.8)])
+                    b = np.array([full.quad_expectation(m, ph) for m in modes for ph in (0.0, 0.8)])
+                    n_a = [st.mean_photon(i)[0] for i in range(len(modes))]
+                    n_b = [full.mean_photon(m)[0] for m in modes]
+                except Exception as e:
+                    bad(f"{label}: raised {type(e).__name__}: {str(e)[:120]}")
+                    continue
+                if not (np.allclose(a, b, atol=1e-6) and np.allclose(n_a, n_b, atol=1e-6)):
+                    bad(f"{label}: index i of the returned state is not the i-th requested mode (quadratures {np.round(a[:, 0], 3).tolist()} vs {np.round(b[:, 0], 3).tolist()} from the full state)")
+
+
 if __name__ == "__main__":
     cut = 12 if tier == "quick" else 16
+    try:
+        check_backend_state_subsets(cut)
+    except Exception:
+        import traceback
+        traceback.print_exc()
+        print("bounded stand-in crashed")
+        sys.exit(3)
     try:
         for n in (2, 3):
             for pure in (True, False):
